@@ -329,6 +329,26 @@ func init() {
 		Rule: "case = one activity (Create/Announce/Like/Listen/Add) whose to/cc/audience mix owned collections, foreign collections, owned non-collections and actors, with a reply chain of depth 0-5 through embedded values and dereferenced IRIs (inReplyTo/tag/object/target) owned at a random level or nowhere, unreachable / unknown-type links, forwarding depth limit 1-4, filter all/none/first/odd, delivered 1-3 times to one or two local inboxes sequentially or concurrently under a seeded schedule; oracle = model of the three conditions on the pre-run snapshot vs FilterForwarding input, forwarding BatchDeliver (count, recipients, payload) and the number of 'seen' records. distinct = distinct (scenario, event sequence).",
 		QuickCases: 1200, QuickBudgetS: 60, ThoroughBudgetS: 600,
 		Drive: func(c *DriveCtx, r *Rng, k int) {
+			if k%8 == 4 {
+				// crash class: the server dies at a random step, then the peer redelivers; forwarding at most once overall
+				seed := r.s
+				clean := c.Exec(genC17(NewRng(seed), k, c.Tier))
+				for i := 0; i < 4 && !c.Expired(); i++ {
+					cr := r.Fork(fmt.Sprintf("crash/%d", i))
+					run := genC17(NewRng(seed), k, c.Tier)
+					n0 := len(run.Requests)
+					for j := 0; j < n0; j++ {
+						rq := run.Requests[j]
+						rq.ID = fmt.Sprintf("x%d", j)
+						rq.AfterCrash, rq.After = true, nil
+						run.Requests = append(run.Requests, rq)
+					}
+					run.Faults = []FaultSpec{{Site: fmt.Sprintf("step|%d", 1+cr.Intn(clean.Steps+3)), Kind: "crash", Arg: hostA}}
+					run.Gen += " crash@" + run.Faults[0].Site
+					c.Exec(run)
+				}
+				return
+			}
 			if k%8 == 0 {
 				seed := r.s
 				c.singleFaultSweep(func() *RunSpec { return genC17(NewRng(seed), k, c.Tier) }, faultKindFor)
